@@ -95,7 +95,8 @@ impl Family for C11Family {
             };
             let mut s = gen_reg(&mut r, rp);
             s.algs = vec![-7];
-            s.exclude = None;
+            // (an exclude list that matches nothing must not change anything)
+            s.exclude = if r.chance(1, 3) { Some((0..r.range(1, 3)).map(|_| IdRef::Unknown(r.bytes(16))).collect()) } else { None };
             s.sel = Some(Sel { rk, require_rk, uv: *r.pick(&[0, 1, 2]) });
             if no_uv {
                 s.sel = Some(Sel { rk, require_rk, uv: 2 });
@@ -103,6 +104,11 @@ impl Family for C11Family {
                 s.sel = None;
             }
             s.cred_props = cred_props;
+            // one client cell run in eight: the options travel as JSON; when the cell's residentKey is absent it
+            // is sometimes spelled as a string this library version does not know (to be treated as absent)
+            if r.chance(1, 8) {
+                s.via_json = if rk.is_none() && s.sel.is_some() { r.range(1, 3) as u8 } else { 1 };
+            }
             if with_prf {
                 s.prf = Some(super::c09::gen_prf_in(&mut r, false, false));
             }
@@ -111,7 +117,7 @@ impl Family for C11Family {
             let n = cell - CLIENT_CELLS;
             store.capability = CAPS[(n % 3) as usize];
             let mut s = gen_mc(&mut r, rp_effective(rp));
-            s.exclude = None;
+            s.exclude = if r.chance(1, 3) { Some((0..r.range(1, 3)).map(|_| IdRef::Unknown(r.bytes(16))).collect()) } else { None };
             s.rk = n / 3 == 1;
             if no_uv {
                 s.uv = false;
@@ -172,7 +178,7 @@ impl Family for C11Family {
         let rec = run_and_measure(c, stats);
         let mut j = Judge::new("C11", scn, &rec);
         stats.cells_total = CELLS;
-        for p in ["cell_on_contended_store", "required_rk_refused_by_non_discoverable_store", "forced_discoverable_overrides_request", "cred_props_reported", "assertion_returned_user_handle", "assertion_without_user_handle", "capability_changed_before_registration", "cred_props_with_prf_on_hmac_authenticator", "registered_on_authenticator_without_user_verification"] {
+        for p in ["cell_on_contended_store", "required_rk_refused_by_non_discoverable_store", "forced_discoverable_overrides_request", "cred_props_reported", "assertion_returned_user_handle", "assertion_without_user_handle", "capability_changed_before_registration", "cred_props_with_prf_on_hmac_authenticator", "registered_on_authenticator_without_user_verification", "options_through_json", "unknown_resident_key_string", "options_json_round_trip_refused"] {
             stats.declare_probe(p);
         }
         if rec.panic.is_some() || rec.outcome != Outcome2::Done {
@@ -210,6 +216,17 @@ impl Family for C11Family {
             _ => None,
         });
         let saved = applied(&rec, reg).iter().find(|a| a.1).map(|a| a.2.clone());
+        if let OpKind::Register(s) = kind {
+            if s.via_json > 0 {
+                stats.probe("options_through_json");
+            }
+            if s.via_json >= 2 {
+                stats.probe("unknown_resident_key_string");
+            }
+            if matches!(reg.result, OpResult::Skipped(_)) {
+                stats.probe("options_json_round_trip_refused");
+            }
+        }
         let expected_rk = match kind {
             OpKind::Register(s) => {
                 let (rk, req) = s.sel.as_ref().map(|x| (x.rk, x.require_rk)).unwrap_or((None, false));
